@@ -170,6 +170,31 @@ func (c *Ctx) adapterStackFresh(a *genAnchors, newEmpty *types.Func, cal *types.
 		return true
 	})
 	if !fresh {
+		// the stack may be created by a function of the package that the literal calls and that gets no stack from it
+		ast.Inspect(lit.Body, func(n ast.Node) bool {
+			cc, ok := n.(*ast.CallExpr)
+			if !ok || fresh {
+				return true
+			}
+			for _, arg := range cc.Args {
+				if a.isStack(p.TypesInfo.TypeOf(arg)) {
+					return true
+				}
+			}
+			if hc := Callee(p.TypesInfo, cc); hc != nil && hc.Pkg() == p.Types {
+				if hd := findFuncDecl(p, hc); hd != nil && hd.Body != nil && hd != fd {
+					if containsNodeDeep(hd.Body, func(y ast.Node) bool {
+						c2, ok := y.(*ast.CallExpr)
+						return ok && isCallTo(p.TypesInfo, c2, newEmpty)
+					}) {
+						fresh = true
+					}
+				}
+			}
+			return true
+		})
+	}
+	if !fresh {
 		return "the producer returned by " + cal.Name() + " does not create a stack of its own"
 	}
 	return ""
@@ -343,6 +368,15 @@ func ruleR062(c *Ctx) {
 						if _, ok := u.X.(*ast.CompositeLit); ok && !c.escapesBefore(info, fn, info.ObjectOf(id), sel) {
 							c.OK(key, sel.Pos(), "%s of a field of a list that was just created and is not shared yet", kind)
 							return true
+						}
+					}
+					// new(List)
+					if call, ok := ast.Unparen(as.Rhs[i]).(*ast.CallExpr); ok {
+						if bid, ok := ast.Unparen(call.Fun).(*ast.Ident); ok && bid.Name == "new" {
+							if _, isB := info.Uses[bid].(*types.Builtin); isB && !c.escapesBefore(info, fn, info.ObjectOf(id), sel) {
+								c.OK(key, sel.Pos(), "%s of a field of a list that was just created and is not shared yet", kind)
+								return true
+							}
 						}
 					}
 					// created by a private constructor whose body is `return &List{...}`
